@@ -11,9 +11,19 @@
                      (pool length is written with "<h": at most 32767 distinct keys);
      no_0x88_key t   no dictionary uses a key whose pool index has low byte 0x88 (known finding F9;
                      without it the round trip is REFUTED below).
-   Modelling boundary: the writer's `prev_metadata != cell.metadata` is structural equality here;
-   Python's == is coarser on metadata that differ only in dict order / 1 vs True vs 1.0 / 0.0 vs
-   -0.0 (the correspondence check keeps adjacent slices Python-unequal). *)
+   The writer's `prev_metadata != cell.metadata` (previous CELL's metadata, Python ==):
+     [ser]    takes the test structurally            -> C05_roundtrip
+     [ser_py] takes it as Python's == at wire level  -> C05_roundtrip_up_to_pyeq: what comes back is
+              [rep_py t]: a cell whose metadata record was skipped (its metadata is == to the
+              previous cell's) carries the first representation of that run -- so metadata that are
+              == but not identical (details {"a": True} vs {"a": 1} vs {"a": 1.0}, limit 0.0 vs -0.0,
+              other dict order) are COLLAPSED by the implementation (reported to the lead as a minor
+              finding); C05_roundtrip_faithful_writer: on [coherentb t] triangles (nothing to collapse:
+              rep_py t = t, a Boolean the check evaluates on every generated case) the faithful
+              writer round-trips exactly.  [meta_pyeqb]: numbers by value across bool/int/float
+              (nan != nan, so detail floats are assumed NaN-free: Python's identity shortcut on shared
+              objects is not modelled), str/date/None only equal their own kind, dicts as item sets.
+              The theorem holds for ANY test (Proofs/BinaryTop.parse_ser_with_gen). *)
 From Coq Require Import ZArith List Bool Lia.
 From Bermuda Require Import Lib.Bytes Lib.BinParse Lib.StrSort Model.Binary Proofs.BinaryTop.
 Import ListNotations.
@@ -22,6 +32,15 @@ Open Scope Z_scope.
 Theorem C05_roundtrip : forall t, wf t -> no_0x88_key t -> parse (ser t) = ROk (cells t).
 Proof. exact parse_ser. Qed.
 Print Assumptions C05_roundtrip.
+
+Theorem C05_roundtrip_up_to_pyeq : forall t, wf t -> no_0x88_key t -> parse (ser_py t) = ROk (rep_py t).
+Proof. exact parse_ser_py. Qed.
+Print Assumptions C05_roundtrip_up_to_pyeq.
+
+Theorem C05_roundtrip_faithful_writer : forall t, wf t -> no_0x88_key t -> coherentb t = true ->
+  parse (ser_py t) = ROk (cells t).
+Proof. exact parse_ser_py_coherent. Qed.
+Print Assumptions C05_roundtrip_faithful_writer.
 
 (* dispatch: writing with compress=c to the conventional extension and reading with None or Some c
    selects the same flavour; the stream parsed is the same [ser t] (gzip is an oracle:
@@ -89,4 +108,15 @@ Definition ex_tri : triangle :=
 Example C05_nonvacuous :
   wf ex_tri /\ no_0x88_key ex_tri /\ length (cells ex_tri) = 3%nat /\
   (100 <? length (ser ex_tri))%nat = true.
+Proof. vm_compute. repeat split; reflexivity. Qed.
+
+(* collapse example: two cells whose metadata are == but differ in kind (True vs 1) *)
+Definition col_meta (v : gval) : meta := mkMeta (Some [65]) None None None None None [([97], v)] [].
+Definition col_tri : triangle :=
+  [ mkCell KCell (2020, 1, 1) (2020, 12, 31) (2020, 12, 31) [([120], GInt 1)] None (col_meta (GBool true));
+    mkCell KCell (2021, 1, 1) (2021, 12, 31) (2021, 12, 31) [([120], GInt 2)] None (col_meta (GInt 1)) ].
+Example C05_pyeq_collapse :
+  wf col_tri /\ no_0x88_key col_tri /\ coherentb col_tri = false /\ coherentb ex_tri = true /\
+  parse (ser_py col_tri) = ROk [nth 0 col_tri f9_cell; set_meta (nth 1 col_tri f9_cell) (col_meta (GBool true))] /\
+  parse (ser col_tri) = ROk col_tri.
 Proof. vm_compute. repeat split; reflexivity. Qed.
